@@ -26,17 +26,16 @@ pub async fn clean_target_output_paths(target: &Target) -> Result<()> {
 }
 
 async fn clean_path(path: &Path) -> Result<()> {
-    if path.exists().await {
-        if path.is_file().await {
-            fs::remove_file(&path)
-                .await
-                .with_context(|| format!("Failed to remove file {}", path.display()))?;
-        } else if path.is_dir().await {
+    // Do not follow symbolic links: a link, even a dangling one, is removed itself and never its target
+    if let Ok(metadata) = fs::symlink_metadata(&path).await {
+        if metadata.is_dir() {
             fs::remove_dir_all(&path)
                 .await
                 .with_context(|| format!("Failed to remove directory {}", path.display()))?;
         } else {
-            log::warn!("Failed to remove {}", path.display())
+            fs::remove_file(&path)
+                .await
+                .with_context(|| format!("Failed to remove file {}", path.display()))?;
         }
     }
 
